@@ -4,7 +4,8 @@
  *
  * stdin (one scenario):
  *   T <nthreads> D <dispatcher 0|1> S <nsteps>
- *   then for each step:  P <delay_ms> <order-seed>      (peer: wait for the step's calls, sleep, answer in one write)
+ *   then for each step:  P <delay_ms> <order-seed> <noise 0|1>   (peer: wait for the step's calls, [write an unrelated
+ *                        message at once,] sleep, answer in one write)
  *                        and for each thread:  C <mode b|n|p> <timeout_ms> <answered 0|1>
  * stdout: one JSON object {"k":"pthr","dispatcher":d,"calls":[{thr,step,mode,timeout,answered,ser,sent,wrote,done,n,kind,rs}]}
  *   times in ms since start; comp = completed flag; n = notifications received; kind 2 = method return, 3 = error, 0 = none. */
@@ -32,6 +33,7 @@ typedef struct {
 static Call calls[MAXS][MAXT];
 static int nthreads, nsteps, dispatcher;
 static int peer_delay[MAXS];
+static int peer_noise[MAXS];      /* write an unrelated message at once, before the answers */
 static unsigned peer_seed[MAXS];
 static DBusConnection *conn;
 static int lfd = -1, pfd = -1;
@@ -196,6 +198,12 @@ peer_main (void *arg)
       /* the issuing threads have noted their serials (the peer may well have the bytes before that) */
       while (recorded < nthreads * (step + 1) && now_ms () < deadline + 2000)
         usleep (200);
+      if (peer_noise[step])
+        {
+          unsigned char nb[24];
+          size_t nl = make_reply (nb, ++myser, 0x7ffffff0u);      /* answers nothing that is outstanding */
+          peer_write (nb, nl);
+        }
       d.tv_sec = peer_delay[step] / 1000;
       d.tv_nsec = (peer_delay[step] % 1000) * 1000000L;
       nanosleep (&d, NULL);
@@ -360,7 +368,7 @@ main (void)
     die ("bad header");
   for (s = 0; s < nsteps; s++)
     {
-      if (scanf (" P %d %u", &peer_delay[s], &peer_seed[s]) != 2)
+      if (scanf (" P %d %u %d", &peer_delay[s], &peer_seed[s], &peer_noise[s]) != 3)
         die ("bad P line");
       for (t = 0; t < nthreads; t++)
         {
